@@ -28,8 +28,10 @@ ASSUMPTIONS = [
     "duplicates inside one record's own synonym list are not a clash between two different records and are accepted, as the code does",
 ]
 
-P_POOL = ["a", "b", "A", "ab", "", "é", "a.b"]
-U_POOL = ["u/", "u/a", "v#", "U/", "", "u/a_", "é:"]
+# the two sides are separate name spaces: some strings occur in both pools (a CURIE prefix may equal a URI prefix, also of the
+# same record, without any clash)
+P_POOL = ["a", "b", "u/", "A", "ab", "", "é", "a.b"]
+U_POOL = ["u/", "a", "u/a", "v#", "U/", "", "u/a_", "é:", "b"]
 
 
 @st.composite
@@ -125,6 +127,10 @@ def _attempt(build, records, what, stats):
     exp, cur, uri = _expect(records)
     try:
         c = build()
+    except pydantic.ValidationError as e:
+        # only a record listing its OWN canonical prefix / URI prefix among the synonyms of the same side may be refused by
+        # the Record model; the generators of these sub-checks never produce one
+        raise Violation(f"{what}: the Record model refused a record that does not list its own canonical values as synonyms: {str(e)[:300]}") from e
     except (curies.DuplicateURIPrefixes, curies.DuplicatePrefixes) as e:
         kind = type(e).__name__
         if exp == "ok":
